@@ -496,6 +496,8 @@ def run(ctx):
 
 
 MUTANTS = [
+    {"name": "G27-regress-padding-not-recognised", "file": "torrentfile/rebuild.py", "expect": "violated", "rule": "C13.8", "canary": True, "quick": True,
+     "what": "defect G27 (repaired): the v1 reader of rebuild ignores attr='p'", "edits": [('                padding = "p" in f.get("attr", "")', "                padding = False")]},
     {"name": "index-prefiltered-by-name-size", "file": "torrentfile/rebuild.py", "expect": "violated", "rule": "C13.5", "canary": True,
      "what": "candidates of the wrong size (one size per file name) are dropped right after indexing",
      "edits": [("        self.filemap = _index_contents(self.contents, filenames)\n", "        self.filemap = _index_contents(self.contents, filenames)\n        sizes = {f[\"filename\"]: f[\"length\"] for m_ in self.metafiles for f in m_.files}\n        for name_, found in self.filemap.items():\n            found[:] = [c for c in found if c[1] == sizes.get(name_)]\n")]},
@@ -526,7 +528,7 @@ QUICK_CANARIES = True
 CLAIM = {
     "text": "Partial: decides four necessary conditions of completeness on every path (the candidate search does not stop on an unverified candidate; counted implies copied; the reader "
             "tolerates the keys creators omit and still places such entries; the reader visits every entry). It does NOT decide the piece-to-file mapping or hash equality, so a pass is "
-            "not a proof that rebuild completes - only that these structural ways of failing are absent. Defects G11-G13 (arithmetic / bookkeeping, repaired) are outside its reach. C13.4 also requires the v1 file list to be visited in the metafile's order; C13.5 that nothing prunes the search index after it was built; C13.7 that every piece is handed to the verifier (known finding G25 on this tree); C13.8 that the rebuild reader recognises the padding entries the creators write (known finding G27).",
+            "not a proof that rebuild completes - only that these structural ways of failing are absent. Defects G11-G13 (arithmetic / bookkeeping, repaired) are outside its reach. C13.4 also requires the v1 file list to be visited in the metafile's order; C13.5 that nothing prunes the search index after it was built; C13.7 that every piece is handed to the verifier (known finding G25 on this tree); C13.8 that the rebuild reader recognises the padding entries the creators write (repaired since: G27).",
     "note": "Trusted: the same call-graph and origin-term machinery as C14. Honest scope: behaviour of _map_pieces and 100% verification of the rebuilt tree are run-time properties.",
     "technique": "CFG control dependence on verification atoms (origin terms), dominance of the copy over the counter, reader/writer key agreement, must-pass-through in reader loops",
     "design_ref": "DESIGN.md section 4, C13",
